@@ -213,6 +213,7 @@ class Extracted:
         self.has_body = False
         self.rewrites = []
         self.n_spec_lines = 0
+        self.stub_of = None
 
 
 class Result:
@@ -377,10 +378,27 @@ def _do_extract(res, repo_root, head, block, canary, tpl_path):
                 t.replace(a, b, ' (%s: %s) ' % (d.arg, ty))
         # spec insertion
         spec_payload = None
+        stub_of = None
         for d in ds:
             if d.kind == 'spec':
                 spec_payload = list(d.payload)
-        if canary and ex.has_body:
+            elif d.kind == 'specfile':
+                sp = os.path.join(os.path.dirname(tpl_path), d.arg)
+                res.includes.append(sp)
+                spec_payload = _read(sp).rstrip('\n').split('\n')
+            elif d.kind == 'stub':
+                stub_of = d.arg or '?'
+        if stub_of is not None:
+            # contract-only copy: the body is dropped, the function is external_body; its contract is
+            # discharged on the real body in another unit (named in the marker comment)
+            masked = rscan.mask(t.s)
+            m = re.search(r'\bfn\s+(\w+)', masked)
+            body_open = rscan.find_body_open(masked, m.end(), '{')
+            body_close = rscan.match_close(masked, body_open)
+            t.replace(body_open, body_close + 1, '{ unimplemented!() }', origin=None)
+            ex.has_body = False
+            ex.stub_of = stub_of
+        if canary and ex.has_body and stub_of is None:
             spec_payload = _canary_spec(spec_payload)
         if spec_payload is not None:
             masked = rscan.mask(t.s)
@@ -433,7 +451,7 @@ def _do_extract(res, repo_root, head, block, canary, tpl_path):
                 m = re.search(r'\bfn\s+(\w+)', masked)
                 body_open = rscan.find_body_open(masked, m.end(), '{')
                 t.insert(body_open + 1, '\n' + '\n'.join(d.payload) + '\n')
-            elif d.kind in ('rw', 'ret', 'spec', 'derive', 'fnname'):
+            elif d.kind in ('rw', 'ret', 'spec', 'derive', 'fnname', 'specfile', 'stub'):
                 pass
             else:
                 raise ExtractError("%s:%d: unknown directive %s" % (tpl_path, d.lineno, d.kind))
@@ -450,6 +468,9 @@ def _do_extract(res, repo_root, head, block, canary, tpl_path):
                 derive = [x.strip() for x in mm.group(1).split(',') if x.strip() in DERIVE_OK]
     ex.gen_start = len(res.lines) + 1
     res.lines.append(('// ---- extracted: %s :: %s (line %d)' % (file_rel, selector, ex.src_start_line), None))
+    if getattr(ex, 'stub_of', None):
+        res.lines.append(('// STUB-OF %s: contract discharged on the real body in unit %s' % (ex.name, ex.stub_of), None))
+        res.lines.append(('#[verifier::external_body]', None))
     if derive:
         res.lines.append(('#[derive(%s)]' % ', '.join(derive), None))
     for (text, o) in t.lines():
